@@ -22,6 +22,7 @@ import fractions
 import z3
 
 _isinstance = builtins.isinstance
+_INF = float('inf')
 
 
 class Infeasible(Exception):
@@ -393,6 +394,8 @@ class SymInt:
     def _cmp(self, o, f):
         oe = _zi(o)
         if oe is None:
+            if _isinstance(o, float) and o in (_INF, -_INF):
+                return f(0.0, o)
             orr = _zr(o)
             if orr is None:
                 return NotImplemented
@@ -477,6 +480,10 @@ class SymInt:
         d = _zr(o)
         if d is None:
             return NotImplemented
+        if _isinstance(o, int) and not _isinstance(o, bool) and o != 0:
+            if o > 0:
+                return SymReal(z3.ToReal(self.e) / d, ratio=(self.e, o))
+            return SymReal(z3.ToReal(self.e) / d, ratio=(z3.simplify(-self.e), -o))
         if ENG.branch(d == 0):
             raise ZeroDivisionError('division by zero')
         return SymReal(z3.ToReal(self.e) / d)
@@ -574,10 +581,11 @@ class SymInt:
 class SymReal:
     """Exact real (rational) value; stands for Fraction / float in code whose arithmetic is exact
     for the ranges the harness declares (the float-vs-exact gap is a stated, separately discharged lemma)."""
-    __slots__ = ('e',)
+    __slots__ = ('e', 'ratio')
 
-    def __init__(self, e):
+    def __init__(self, e, ratio=None):
         self.e = e
+        self.ratio = ratio    # optional (z3 Int a, python int k > 0) with e == a / k: keeps floor/ceil in LIA
 
     def _bin(self, o, f):
         oe = _zr(o)
@@ -588,6 +596,8 @@ class SymReal:
     def _cmp(self, o, f):
         oe = _zr(o)
         if oe is None:
+            if _isinstance(o, float) and o in (_INF, -_INF):
+                return f(0.0, o)
             return NotImplemented
         return SymBool(f(self.e, oe))
 
@@ -626,6 +636,8 @@ class SymReal:
         return SymReal(z3.simplify(oe / self.e))
 
     def __neg__(self):
+        if self.ratio is not None:
+            return SymReal(z3.simplify(-self.e), ratio=(z3.simplify(-self.ratio[0]), self.ratio[1]))
         return SymReal(z3.simplify(-self.e))
 
     def __pos__(self):
@@ -658,9 +670,15 @@ class SymReal:
         return ENG.branch(self.e != 0)
 
     def __floor__(self):
+        if self.ratio is not None:
+            a, k = self.ratio       # k > 0: z3 integer division is floor division
+            return SymInt(z3.simplify(a / k))
         return SymInt(z3.ToInt(self.e))
 
     def __ceil__(self):
+        if self.ratio is not None:
+            a, k = self.ratio
+            return SymInt(z3.simplify(-((-a) / k)))
         return SymInt(-z3.ToInt(-self.e))
 
     def __trunc__(self):
@@ -789,11 +807,17 @@ def _alarm(signum, frame):
 
 
 def call_with_budget(fn, budget_s, *args, **kw):
-    """Run fn under an interval timer; NonTermination is raised inside it on expiry."""
+    """Run fn under an interval timer; NonTermination is raised inside it on expiry (and again every
+    50 ms after that, so that code which swallows exceptions in a loop cannot hold on to control)."""
     old = signal.signal(signal.SIGALRM, _alarm)
-    signal.setitimer(signal.ITIMER_REAL, budget_s)
+    signal.setitimer(signal.ITIMER_REAL, budget_s, 0.05)
     try:
         return fn(*args, **kw)
     finally:
-        signal.setitimer(signal.ITIMER_REAL, 0)
-        signal.signal(signal.SIGALRM, old)
+        while True:
+            try:
+                signal.setitimer(signal.ITIMER_REAL, 0)
+                signal.signal(signal.SIGALRM, old)
+                break
+            except NonTermination:
+                continue
